@@ -97,9 +97,10 @@ def run_instance(inst):
                     mt = make_matcher(None, mp, cfg)
                     concrete_thresholds(mt, cfg, thr)
                     try:
-                        out.append((kind, mt.match(path)))
+                        st, idx = mt.match(path)
+                        out.append((kind, (st, idx), (float(mt.lattice_best[-1].logprob) if st else None)))
                     except Exception as e:
-                        out.append((kind, e))
+                        out.append((kind, e, None))
             finally:
                 if latlon:
                     opq.install()
@@ -107,11 +108,14 @@ def run_instance(inst):
 
     def judge(cpairs, thr):
         runs = concrete_runs(cpairs, thr)
-        for kind, r in runs:
+        for kind, r, _ in runs:
             if isinstance(r, Exception):
                 return f"match() with {kind} {cpairs} raised {type(r).__name__}: {r}"
         if runs[0][1] != runs[1][1] and not (runs[0][1][1] == runs[1][1][1] and list(runs[0][1][0]) == list(runs[1][1][0])):
             return f"pairs give {runs[0][1]} but triples give {runs[1][1]} for {cpairs}"
+        pa, pb = runs[0][2], runs[1][2]
+        if pa is not None and pb is not None and abs(pa - pb) > 1e-9 * max(1.0, abs(pa)):
+            return f"pairs give best log-probability {pa} but triples give {pb} for {cpairs} (result {runs[0][1]})"
         return None
 
     def confirm(eng, model, v, cname):
